@@ -160,6 +160,10 @@ def load_shadow(extra=None):
                 d['math'] = _MathShim()
             if 'erf' in d:
                 d['erf'] = shim_erf
+            if 'truncnorm' in d:
+                from . import ghost
+                d['truncnorm'] = ghost.TruncnormShim()
+                d['norm'] = ghost.NormShim()
             for k, v in BUILTIN_SHIMS.items():
                 d[k] = v
             if extra:
